@@ -224,3 +224,40 @@ def cdr_groups_finding(M):
     if idx != [2, 3, 4] or lits != [".", "."]:
         return f"the C.D.E string is built from groups {idx} with separators {lits} instead of groups 2, 3, 4 joined by '.'"
     return None
+
+
+# ------------------------------------------------------------------------------------------------ role resolution of private helpers
+def module_callees(M, mod, roots):
+    """names of functions of module `mod` reachable from the given function names through direct calls"""
+    funcs = {n.split(".", 1)[1]: f for n, f in M.funcs.items() if f.mod == mod and f.cls is None}
+    seen, work = set(), [r for r in roots if r in funcs]
+    while work:
+        f = work.pop()
+        if f in seen:
+            continue
+        seen.add(f)
+        for n in ast.walk(funcs[f].node):
+            if isinstance(n, ast.Call) and isinstance(n.func, ast.Name) and n.func.id in funcs and n.func.id not in seen:
+                work.append(n.func.id)
+    return seen
+
+
+def normaliser_workers(M, mod):
+    """the private function(s) that turn list items into the dictionary, found from the public normalize_* entry points"""
+    public = {"normalize_parsed_frame", "normalize_parsed_notification", "decode_frame_content", "decode_notification_body"}
+    reach = module_callees(M, mod, ["normalize_parsed_notification", "normalize_parsed_frame"]) - public
+    out = []
+    for name in sorted(reach):
+        f = M.funcs.get(f"{mod}.{name}")
+        if f is not None and any(isinstance(n, ast.For) for n in ast.walk(f.node)) and any(isinstance(n, ast.Subscript) and isinstance(n.ctx, ast.Store) for n in ast.walk(f.node)):
+            out.append(f)
+    return out
+
+
+def p1_decode_worker(M):
+    reach = module_callees(M, "dlde", ["decode_p1_readout_content"]) - {"decode_p1_readout_content", "parse_p1_readout_content", "parse_p1_readout"}
+    for name in sorted(reach):
+        f = M.funcs.get(f"dlde.{name}")
+        if f is not None and any(isinstance(n, ast.For) for n in ast.walk(f.node)):
+            return f
+    return None
